@@ -168,7 +168,16 @@ type fcaseT struct {
 	Err errT
 }
 
+// pcaseT: a burst of failing requests served truly in parallel on one app (Workers goroutines, PerWorker requests
+// each, recorder wire, every worker its own slot); every response is judged on its own by the ordinary oracle
+type pcaseT struct {
+	Opts      []optT
+	Workers   int
+	PerWorker int
+}
+
 type caseT struct {
+	P   *pcaseT `json:",omitempty"`
 	O   *ocaseT `json:",omitempty"`
 	Idx int     `json:",omitempty"`
 	A   *acaseT `json:",omitempty"`
@@ -319,7 +328,7 @@ type slotT struct {
 	aborted bool
 }
 
-var slots [4]slotT
+var slots [20]slotT
 var acceptAnswers []string
 
 func slotIndex(r *http.Request) int {
@@ -340,7 +349,7 @@ type logRec struct {
 
 var (
 	capMu   sync.Mutex
-	capLogs [4][]logRec
+	capLogs [20][]logRec
 	curSlot int
 )
 
@@ -1041,6 +1050,44 @@ func emitA(id string, k acaseT, st *hx.Stats) string {
 	return lineA(id, k, o, answers, st) + hx.Comment(caseT{A: &k})
 }
 
+func emitP(id string, k pcaseT, st *hx.Stats) []string {
+	if k.Workers > len(slots) {
+		k.Workers = len(slots)
+	}
+	b := getApp(k.Opts, false, false)
+	answers := answersFor(b, nil)
+	type one struct {
+		k acaseT
+		o obsT
+	}
+	res := make([][]one, k.Workers)
+	var wg sync.WaitGroup
+	for w := 0; w < k.Workers; w++ {
+		wg.Add(1)
+		go func(w int) {
+			defer wg.Done()
+			for i := 0; i < k.PerWorker; i++ {
+				e := errT{Kind: "typed", Msg: bstr(fmt.Sprintf("order %d-%d not found", w, i)), HasSt: true, St: []int{404, 409, 422, 503}[(w+i)%4], HasCo: true, Code: "E_ORDER"}
+				a := acaseT{Wire: "r", Opts: k.Opts, Len: 2, Pos: 1, Mask: 1, Call: callT{Kind: "fail", Err: &e}}
+				arm(w, &a)
+				st, ct, body, panicked := serve(b, "r", a.route(), nil, w)
+				res[w] = append(res[w], one{a, observe(w, st, ct, body, panicked)})
+			}
+		}(w)
+	}
+	wg.Wait()
+	var out []string
+	for w := range res {
+		for i, r := range res[w] {
+			out = append(out, lineA(fmt.Sprintf("%s.%d.%d", id, w, i), r.k, r.o, answers, st)+hx.Comment(caseT{P: &k}))
+		}
+	}
+	if st != nil {
+		st.Count("fail_parallel_bursts")
+	}
+	return out
+}
+
 func emitO(id string, k ocaseT, only int, st *hx.Stats) []string {
 	obs, answers := runO(k)
 	var out []string
@@ -1406,7 +1453,11 @@ func main() {
 		r := hx.NewRand(a.Seed)
 		st := hx.NewStats()
 		for i, c := range fixedCases() {
-			if c.O != nil {
+			if c.P != nil {
+				for _, line := range emitP(fmt.Sprintf("c06-fix-%d", i), *c.P, st) {
+					fmt.Fprintln(w, line)
+				}
+			} else if c.O != nil {
 				for _, line := range emitO(fmt.Sprintf("c06-fix-%d", i), *c.O, -1, st) {
 					fmt.Fprintln(w, line)
 				}
@@ -1443,6 +1494,10 @@ func main() {
 				continue
 			}
 			switch {
+			case k.P != nil:
+				for _, line := range emitP(id, *k.P, nil) {
+					fmt.Fprintln(w, line)
+				}
 			case k.O != nil:
 				for _, line := range emitO(id, *k.O, k.Idx, nil) {
 					fmt.Fprintln(w, line)
